@@ -315,6 +315,9 @@ func Reductions(m Module) []Module {
 		if len(p.SrcAlias) > 0 {
 			edit(func(x *Module) { x.Pkgs[pi].SrcAlias = nil })
 		}
+		if len(p.FuncLocal) > 0 {
+			edit(func(x *Module) { x.Pkgs[pi].FuncLocal = x.Pkgs[pi].FuncLocal[:len(x.Pkgs[pi].FuncLocal)-1] })
+		}
 		if p.Dir != "svc" && p.Name != "svc" {
 			clash := false
 			for _, o := range m.Pkgs {
